@@ -40,7 +40,12 @@ type c14Stim struct {
 }
 
 func c14Cfg(maxCombs, maxFields int, ns, nameMenu, fieldNames, kinds, maskBits, tagKinds, muts, optRows string) map[string]string {
+	return c14CfgF(maxCombs, maxFields, ns, nameMenu, fieldNames, kinds, maskBits, tagKinds, muts, optRows, `{"get", "set"}`)
+}
+
+func c14CfgF(maxCombs, maxFields int, ns, nameMenu, fieldNames, kinds, maskBits, tagKinds, muts, optRows, funcNames string) map[string]string {
 	return map[string]string{
+		"FUNCNAMES": funcNames,
 		"MAXCOMBS": fmt.Sprint(maxCombs), "MAXFIELDS": fmt.Sprint(maxFields), "NAMESPACES": ns, "NAMEMENU": nameMenu,
 		"FIELDNAMES": fieldNames, "KINDS": kinds, "MASKBITS": maskBits, "TAGKINDS": tagKinds, "TL2": "FALSE",
 		"MUTATIONS": muts, "OPTROWS": optRows,
@@ -106,6 +111,29 @@ func runC14(c *core.Ctx) error {
 		exhStims = append(exhStims, m)
 	}
 
+	// 1b. exhaustive catalogue: one struct / one union constructor with one int field named like
+	// every method the Go generator emits (generated-method names as field names)
+	cat, err := c.MustTLC(core.TLCOpts{Module: "MC_SchemaSpace", Cfg: "MC_SchemaSpace.cfg", Workers: 4, Timeout: 5 * time.Minute,
+		Consts: c14CfgF(1, 1, `{"a"}`, "MCNameMenuOne", "MCFieldNamesMethods", "MCKindsInt", "{0}", `{}`, "MCMutationsNone", `{"plain"}`, "{}")})
+	if err != nil {
+		return err
+	}
+	c.Add("states", cat.Distinct)
+	c.Add("transitions", cat.Generated)
+	var catStims []mSchema
+	for _, raw := range cat.Emits {
+		var m mSchema
+		if err := json.Unmarshal(raw, &m); err != nil {
+			return err
+		}
+		if len(m.Schema) == 0 || len(m.Schema[0].Fields) == 0 || seen[schemaKey(&m)] {
+			continue
+		}
+		seen[schemaKey(&m)] = true
+		catStims = append(catStims, m)
+	}
+	c.Set("method_name_catalogue_states", len(catStims))
+
 	// 2. seeded simulation above them; TLC evaluates the Emit invariant on every successor of
 	// the random walks, so each walk contributes its whole neighbourhood
 	strata := map[string][]mSchema{}
@@ -154,16 +182,25 @@ func runC14(c *core.Ctx) error {
 	c.Logf("TLC simulation: %d states checked, %d distinct schemas in %d strata (%v)", sim.Generated, nSim, len(strata), sim.Wall)
 
 	// 3. choose the stimuli
-	want := c.Pick(150, 2000)
+	want := c.Pick(110, 2000)
 	var stims []*c14Stim
-	nExh := len(exhStims)
-	if !c.Thorough() && nExh > 40 {
-		rng.Shuffle(len(exhStims), func(i, j int) { exhStims[i], exhStims[j] = exhStims[j], exhStims[i] })
-		nExh = 40
+	rng.Shuffle(len(exhStims), func(i, j int) { exhStims[i], exhStims[j] = exhStims[j], exhStims[i] })
+	rng.Shuffle(len(catStims), func(i, j int) { catStims[i], catStims[j] = catStims[j], catStims[i] })
+	if !c.Thorough() {
+		if len(exhStims) > 30 {
+			exhStims = exhStims[:30]
+		}
+		if len(catStims) > 10 {
+			catStims = catStims[:10]
+		}
 	}
-	for i := 0; i < nExh; i++ {
-		stims = append(stims, &c14Stim{M: exhStims[i], Src: "exhaustive"})
+	for _, m := range exhStims {
+		stims = append(stims, &c14Stim{M: m, Src: "exhaustive"})
 	}
+	for _, m := range catStims {
+		stims = append(stims, &c14Stim{M: m, Src: "catalogue"})
+	}
+	nExh := len(stims)
 	var stKeys []string
 	for k := range strata {
 		stKeys = append(stKeys, k)
@@ -307,7 +344,11 @@ func runC14(c *core.Ctx) error {
 		generate(&again, fresh)
 		out, berr := c.Run(mod, 5*time.Minute, core.GoEnv(), "go", "build", "./"+again.ID+"/...")
 		if again.Exit == 0 && berr != nil {
-			c.Violate(fmt.Sprintf("build/%s/%s/%s", s.M.Opt, strings.Join(kindsOf(&s.M), ","), shortHash([]byte(s.TL1+s.TL2))),
+			key := fmt.Sprintf("build/%s/%s/%s", s.M.Opt, strings.Join(kindsOf(&s.M), ","), shortHash([]byte(s.TL1+s.TL2)))
+			if name := methodCollision(out, &s.M); name != "" {
+				key = "build/field-name-collides-with-generated-method/" + name
+			}
+			c.Violate(key,
 				"tl2gen accepted the schema (exit 0) but the generated Go code does not build: "+tail(out, 900),
 				map[string]any{"tl1": s.TL1, "tl2": s.TL2, "opt": s.M.Opt, "flags": c14OptRows[s.M.Opt], "model": s.M})
 		} else {
@@ -364,6 +405,34 @@ func runC14(c *core.Ctx) error {
 	c.Assume("'the generated code compiles' is decided by the Go compiler, not by the specification; the model's Accepted predicate is used only as a vacuity guard and reported as an agreement matrix")
 	c.Assume("TL2-origin schemas are not part of this stimulus space (TL1 schemas, optionally with TL2 code generation via --tl2WhiteList)")
 	return nil
+}
+
+var reMethodColl = regexp.MustCompile(`field and method with the same name (\w+)|item\.(\w+) \((?:neither addressable|value of type func)`)
+
+// methodCollision classifies a build failure: a schema field whose Go name equals the name of a
+// method the generator emits for the struct. Returns the Go name, or "".
+func methodCollision(buildOut string, m *mSchema) string {
+	goNames := map[string]bool{}
+	for _, cb := range m.Schema {
+		for _, f := range cb.Fields {
+			goNames[upperFirst(f.N)] = true
+		}
+	}
+	var found []string
+	for _, mm := range reMethodColl.FindAllStringSubmatch(buildOut, -1) {
+		n := mm[1]
+		if n == "" {
+			n = mm[2]
+		}
+		if goNames[n] {
+			found = append(found, n)
+		}
+	}
+	if len(found) == 0 {
+		return ""
+	}
+	sort.Strings(found)
+	return found[0]
 }
 
 var reBuildPkg = regexp.MustCompile(`(?m)^(?:# )?c14mod/(g\d+r?)[/ \n]`)
